@@ -392,6 +392,14 @@ func genB(t *rapid.T) ([]ops.Op, []int) {
 		}
 		b = append(b, ops.OpDraw(ops.ClosePathEndPath))
 	}
+	// a gradient value that names one stop, or none (never a paint; the Renderer's gradient object
+	// may still hold the ranges of an earlier graphic): before B's own first gradient
+	if rapid.Bool().Draw(t, "bfew") {
+		g1 := spec.EncodeGradientBits(spec.GradientBits{NStops: uint8(rapid.IntRange(0, 1).Draw(t, "g1n")), CBase: gen.Sel(t, "g1cb"), NBase: gen.Sel(t, "g1nb"), Spread: uint8(rapid.IntRange(0, 3).Draw(t, "g1s")), Radial: rapid.Bool().Draw(t, "g1r")})
+		b = append(b, ops.OpSetCReg(0, false, ops.RGBAv(g1)))
+		path(ops.OpDraw(ops.AbsLineTo, moderate(t, "g1x"), moderate(t, "g1y")))
+		b = append(b, ops.OpSetCReg(0, false, ops.ColorV{T: 1, R: 0})) // CREG[0] as it was
+	}
 	// relies on CSEL = NSEL = 0 after Reset: a gradient written with
 	// incrementing writes only (matrix in NREG[0..5], offsets in NREG[6..8],
 	// colours in CREG[0..2], the gradient value in CREG[3])
